@@ -87,13 +87,9 @@ MkParents(D, p, k, r) ==
 \* one source (no wildcard).  srcTop: the entry of the source node (the root directory's own
 \* attributes when sp = <<>>).
 EntriesOf(D) == [p \in DOMAIN D |-> D[p].e]
-CopyOne(S, sp, srcTop, D, r0) ==
-  \* symlinks in the destination path argument are resolved as if the destination root were "/"
-  \* (every component, the last one included)
-  LET res == ResolvePath(EntriesOf(D), r0.dp) IN
-  IF ~res.ok THEN [ok |-> FALSE, D |-> D, obstacle |-> <<>>] ELSE
-  LET r == [r0 EXCEPT !.dp = res.p]
-      srcDir == srcTop.t = "dir"
+\* r.dp is the destination argument after resolution
+CopyOneResolved(S, sp, srcTop, D, r) ==
+  LET srcDir == srcTop.t = "dir"
       \* a destination argument with a trailing separator (or naming the root) is created as a directory first
       pre == IF r.slash THEN MkParents(D, r.dp, 1, r) ELSE [ok |-> TRUE, D |-> D]
   IN IF ~pre.ok THEN pre ELSE
@@ -106,6 +102,12 @@ CopyOne(S, sp, srcTop, D, r0) ==
          upto == IF r.contents /\ srcDir /\ ~destExists THEN final ELSE Parent(final)
          par == MkParents(D0, upto, 1, r)
      IN IF ~par.ok THEN par ELSE CopyNode(S, sp, srcTop, par.D, final, r)
+CopyOne(S, sp, srcTop, D, r0) ==
+  \* symlinks in the destination path argument are resolved as if the destination root were "/"
+  \* (every component, the last one included) - once, when the call starts
+  LET res == ResolvePath(EntriesOf(D), r0.dp) IN
+  IF ~res.ok THEN [ok |-> FALSE, D |-> D, obstacle |-> <<>>]
+  ELSE CopyOneResolved(S, sp, srcTop, D, [r0 EXCEPT !.dp = res.p])
 
 \* The one shape whose repetition is a different request by the statement's own placement rule:
 \* a source directory copied (not in contents mode) to a destination that does not exist yet
@@ -115,12 +117,17 @@ PlacementFlips(srcTop, D, r0) ==
   res.ok /\ srcTop.t = "dir" /\ ~r0.contents /\ ~(res.p = <<>> \/ res.p \in DOMAIN D)
 
 \* wildcard sources: the union of the matches, applied in walk order
-RECURSIVE CopyMany(_, _, _, _)
-CopyMany(S, sps, D, r) ==
+RECURSIVE CopyManyResolved(_, _, _, _)
+CopyManyResolved(S, sps, D, r) ==
   IF sps = {} THEN [ok |-> TRUE, D |-> D]
   ELSE LET sp == MinPath(sps)
-           one == CopyOne(S, sp, S[sp], D, r)
-       IN IF ~one.ok THEN one ELSE CopyMany(S, sps \ {sp}, one.D, r)
+           one == CopyOneResolved(S, sp, S[sp], D, r)
+       IN IF ~one.ok THEN one ELSE CopyManyResolved(S, sps \ {sp}, one.D, r)
+\* the destination argument is resolved once for the whole call, not once per match
+CopyMany(S, sps, D, r0) ==
+  LET res == ResolvePath(EntriesOf(D), r0.dp) IN
+  IF ~res.ok THEN [ok |-> FALSE, D |-> D, obstacle |-> <<>>]
+  ELSE CopyManyResolved(S, sps, D, [r0 EXCEPT !.dp = res.p])
 
 \* ---- comparing the real outcome with the reference ------------------------------------
 StartMarks(before) == [p \in PathsOf(before) |-> Mark(At(before, p), "kept")]
@@ -129,7 +136,9 @@ StartMarks(before) == [p \in PathsOf(before) |-> Mark(At(before, p), "kept")]
 \* chmod(1) leaves it open whether an "=" expression clears setuid/setgid/sticky: only the nine
 \* permission bits are compared for such expressions
 PermEq(a, w, eqOnly) == IF eqOnly THEN a % 512 = w % 512 ELSE a = w
-OutcomeClauses(W, after, before, src, eqOnly) ==
+\* mtFree: directories whose modification time is left open (a directory that one wildcard match created and a later
+\* match then wrote into)
+OutcomeClauses(W, after, before, src, eqOnly, mtFree) ==
   LET A == Fn(after)
       B == Fn(before)
   IN (IF DOMAIN A = DOMAIN W THEN {} ELSE {"pathSet"})
@@ -140,7 +149,7 @@ OutcomeClauses(W, after, before, src, eqOnly) ==
                        /\ a.t = w.t /\ (w.t = "file" => a.c = w.c) /\ (w.t = "symlink" => a.ln = w.ln)
                        /\ (w.t \in {"chr", "blk"} => a.dev = w.dev)
                        /\ a.uid = w.uid /\ a.gid = w.gid /\ (w.t # "symlink" => PermEq(a.perm, w.perm, eqOnly))
-                       /\ a.mt = w.mt /\ a.x = w.x
+                       /\ (a.mt = w.mt \/ (w.t = "dir" /\ p \in mtFree)) /\ a.x = w.x
                  THEN {} ELSE {"copiedEntryAttributes"})
            \cup (IF \A p \in DOMAIN W : W[p].how = "parent" =>
                      A[p].t = "dir" /\ A[p].uid = W[p].e.uid /\ A[p].gid = W[p].e.gid /\ (W[p].e.mt # "" => A[p].mt = W[p].e.mt)
